@@ -67,6 +67,20 @@ def noBody : ParseBody := fun _ => none
 
 def handleJson (req : List Sx) : Option String :=
   match req with
+  | [.atom "fn-source", .list es] =>
+    match es.mapM Expr.ofSx with
+    | some xs =>
+      (match parseFunctionSource xs with
+       | some (args, body) => some (Sx.list [.atom "fn", .list (args.map LArg.toSx), .atom (encStr body)]).toStr
+       | none => some "none")
+    | none => some "bad-request"
+  | [.atom "to-sv", v] =>
+    match Value.ofSx v with
+    | some x =>
+      (match fromValue x with
+       | .ok sv => some sv.toSx.toStr
+       | _ => some "err")
+    | none => some "bad-request"
   | [.atom "json-norm", j] =>
     match Json.ofSx j with
     | some x => some x.norm.toSx.toStr
